@@ -192,6 +192,8 @@ impl List {
   /// by setting the MSB for capacity and replacing len with a pointer to the
   /// new list
   fn grow(&mut self, cap: usize, new_cap: usize, hooks: &GcHooks) -> List {
+    #[cfg(feature = "verif")]
+    crate::verif::probe(crate::verif::probes::LIST_FORWARDED);
     let new_list = List::new(hooks.manage_obj(VecBuilder::new(self, new_cap)));
 
     unsafe {
